@@ -136,7 +136,7 @@ def scratch(prefix="vf-"):
     return tempfile.mkdtemp(prefix=prefix, dir=base)
 
 
-def run_shard(vh, cases, cwd=None, env=None, per_case_timeout=20.0, keep_stdout=False):
+def run_shard(vh, cases, cwd=None, env=None, per_case_timeout=20.0, keep_stdout=False, skip_after=2, bad_ops=None):
     """Run cases in one child (restarting after a death); returns {id: Obs}. Deaths are attributed via the journal."""
     d = scratch("probe-")
     results = {}
@@ -148,10 +148,19 @@ def run_shard(vh, cases, cwd=None, env=None, per_case_timeout=20.0, keep_stdout=
     if env:
         e.update(env)
     attempt = 0
+    bad_ops = {} if bad_ops is None else bad_ops
     try:
         while remaining:
             attempt += 1
             cf, of, jf = (os.path.join(d, "%s%d" % (n, attempt)) for n in ("cases", "obs", "journal"))
+            flagged = set(op for (op, _), n in bad_ops.items() if n >= skip_after)
+            if flagged:
+                for c in remaining:
+                    if c.op in flagged and c.id not in results:
+                        results[c.id] = Obs(c.id, "skipped", info={"reason": "entry point already hung / aborted repeatedly"})
+                remaining = [c for c in remaining if c.id not in results]
+                if not remaining:
+                    break
             with open(cf, "w") as f:
                 f.write("\n".join(c.line() for c in remaining) + "\n")
             open(of, "w").close()
@@ -201,6 +210,15 @@ def run_shard(vh, cases, cwd=None, env=None, per_case_timeout=20.0, keep_stdout=
                     if c.id not in results:
                         results[c.id] = Obs(c.id, "missing", info={"rc": p.returncode, "stderr": stderr_tail})
                 break
+            vcase = next((c for c in remaining if c.id == victim), None)
+            if vcase is not None:
+                key = (vcase.op, "timeout" if hung else "died")
+                bad_ops[key] = bad_ops.get(key, 0) + 1
+                if bad_ops[key] >= skip_after:
+                    # the same entry point keeps hanging / aborting: it is reported; do not spend the budget re-observing it
+                    for c in remaining:
+                        if c.op == vcase.op and c.id not in results and c.id != victim:
+                            results[c.id] = Obs(c.id, "skipped", info={"reason": "entry point already %s %d times in this shard" % (key[1], bad_ops[key])})
             if hung:
                 results[victim] = Obs(victim, "timeout", info={"no_progress_s": per_case_timeout})
             else:
@@ -218,7 +236,7 @@ def run_shard(vh, cases, cwd=None, env=None, per_case_timeout=20.0, keep_stdout=
     return results
 
 
-def run_cases(cases, lane="rel", cwd=None, env=None, jobs=None, per_case_timeout=20.0, shard_size=None):
+def run_cases(cases, lane="rel", cwd=None, env=None, jobs=None, per_case_timeout=20.0, shard_size=None, bad_ops=None):
     """Shard cases over up to 16 children. Returns {id: Obs}."""
     if not cases:
         return {}
@@ -226,9 +244,11 @@ def run_cases(cases, lane="rel", cwd=None, env=None, jobs=None, per_case_timeout
     jobs = jobs or min(16, os.cpu_count() or 4)
     if shard_size is None:
         shard_size = max(1, min(2000, (len(cases) + jobs - 1) // jobs))
-    shards = [cases[i:i + shard_size] for i in range(0, len(cases), shard_size)]
+    nsh = max(1, (len(cases) + shard_size - 1) // shard_size)
+    shards = [cases[i::nsh] for i in range(nsh)]   # interleaved, so one slow entry point does not pile up in one shard
     out = {}
+    bad_ops = {} if bad_ops is None else bad_ops
     with ThreadPoolExecutor(max_workers=jobs) as ex:
-        for r in ex.map(lambda s: run_shard(vh, s, cwd=cwd, env=env, per_case_timeout=per_case_timeout), shards):
+        for r in ex.map(lambda s: run_shard(vh, s, cwd=cwd, env=env, per_case_timeout=per_case_timeout, bad_ops=bad_ops), shards):
             out.update(r)
     return out
